@@ -670,7 +670,7 @@ func (w *vfWorld) treeEq(a, b *refNode) bool {
 		}
 		va, _ := w.refLeaf(a)
 		vb, _ := w.refLeaf(b)
-		return va == vb
+		return vfValueEq(va, vb)
 	}
 	if a.op != b.op || len(a.kids) != len(b.kids) {
 		return false
@@ -694,8 +694,10 @@ func vfLogEq(a, b []vfRec) bool {
 		if x.kind != y.kind || x.name != y.name || x.nargs != y.nargs || x.failed != y.failed {
 			return false
 		}
-		eq = eq && x.a0 == y.a0
-		eq = eq && x.res == y.res
+		e0 := vfValueEq(x.a0, y.a0)
+		e1 := vfValueEq(x.res, y.res)
+		eq = eq && e0
+		eq = eq && e1
 	}
 	return eq
 }
